@@ -443,9 +443,13 @@ func runCheck(repo, prop, tier string, keep bool, only string, verbose bool) int
 		"wall_s":      round3(wall),
 		"violations":  len(failed),
 	}
-	os.MkdirAll(filepath.Join(verifDir, "evidence"), 0o755)
+	evDir := filepath.Join(verifDir, "evidence")
+	if d := os.Getenv("VERIF_EVIDENCE_DIR"); d != "" {
+		evDir = d // scratch runs against modified trees must not overwrite the committed evidence
+	}
+	os.MkdirAll(evDir, 0o755)
 	data, _ := json.MarshalIndent(ev, "", " ")
-	os.WriteFile(filepath.Join(verifDir, "evidence", prop+".json"), data, 0o644)
+	os.WriteFile(filepath.Join(evDir, prop+".json"), data, 0o644)
 	fmt.Printf("%s %s: %d functions, %d obligations, %d discharged, %d failed, %d known-finding, %d canaries ok, %d abstracted; %.1fs (load %.1fs, solver cpu %.1fs)\n",
 		prop, tier, len(reports), nObl, nDis, len(failed), len(known), nCanary-len(brokenCanaries), len(abstracted), wall, loadS, solverTime)
 	if !keep && exit == 0 {
